@@ -10,7 +10,20 @@ use crate::charsets::Charset;
 /// of UTF-8 encoded bytes. The `Read::read_to_string` method can be used to convert
 /// the stream of UTF-8 bytes into a `String`.
 #[derive(Debug)]
-pub struct TextReader<R>(DecodeReaderBytes<R, Vec<u8>>);
+pub struct TextReader<R> {
+    inner: DecodeReaderBytes<R, Vec<u8>>,
+    // Decoded bytes that were read on behalf of a caller whose buffer was too small to be
+    // handed to the decoder directly.
+    pending: [u8; MIN_DECODE_BUF],
+    pending_pos: usize,
+    pending_len: usize,
+}
+
+// The decoder loses part of its output (e.g. the replacement character for a sequence that is
+// cut off by the end of the stream) when it is given a buffer that cannot hold it. Callers such
+// as `Read::read_to_string` do pass buffers of only a few bytes, so small reads are served from
+// a scratch buffer of this size instead.
+const MIN_DECODE_BUF: usize = 64;
 
 impl<R> TextReader<R>
 where
@@ -18,7 +31,12 @@ where
 {
     /// Create a new `TextReader` with the given charset.
     pub fn new(inner: R, charset: Charset) -> Self {
-        Self(DecodeReaderBytesBuilder::new().encoding(Some(charset)).build(inner))
+        Self {
+            inner: DecodeReaderBytesBuilder::new().encoding(Some(charset)).build(inner),
+            pending: [0; MIN_DECODE_BUF],
+            pending_pos: 0,
+            pending_len: 0,
+        }
     }
 }
 
@@ -27,7 +45,18 @@ where
     R: Read,
 {
     fn read(&mut self, buf: &mut [u8]) -> io::Result<usize> {
-        self.0.read(buf)
+        if self.pending_pos == self.pending_len {
+            if buf.len() >= MIN_DECODE_BUF {
+                return self.inner.read(buf);
+            }
+            self.pending_pos = 0;
+            self.pending_len = 0;
+            self.pending_len = self.inner.read(&mut self.pending)?;
+        }
+        let n = buf.len().min(self.pending_len - self.pending_pos);
+        buf[..n].copy_from_slice(&self.pending[self.pending_pos..self.pending_pos + n]);
+        self.pending_pos += n;
+        Ok(n)
     }
 }
 
